@@ -80,6 +80,9 @@ class DataFrameSchemaBackend(PandasSchemaBackend):
             (self.strict_filter_columns, (schema, column_info)),
             (self.set_defaults, (schema,)),
             (self.coerce_dtype, (schema,)),
+            # coercion can itself produce nulls ("nan" -> NaN): fill them
+            # before the dataframe-level checks (joint uniqueness) look
+            (self.set_defaults, (schema,)),
         ]
 
         for parser, args in core_parsers:
